@@ -15,6 +15,30 @@ REQUIRED_EVENTS = ["hits_located"]
 QUIRKS = []
 
 
+def any_order_capture_probes(ctx, d):
+    """Capture definitions inside $and_any_order, used again after the group: each child of an any-order group executes exactly once,
+    so the binding is well defined whatever the order in the listing (open finding F21 on the current tree)."""
+    from jv import dsl, listing as L
+    insts, addr = [], 0x401000
+    for m, ops in [("push", ["%rax"]), ("pop", ["%rbx"]), ("push", ["%rax"]), ("ret", []), ("pop", ["%rbx"]), ("push", ["%rax"]), ("push", ["%rax"]), ("ret", []),
+                   ("pop", ["%rbx"]), ("push", ["%rcx"]), ("push", ["%rax"]), ("ret", []), ("lea", ["%rsi", "%rdi"]), ("add", ["%rdi", "%rsi"]), ("lea", ["%rdx", "%rcx"]), ("add", ["%rdx", "%rcx"])]:
+        insts.append(L.SInst(addr, m, list(ops), None, None, 2))
+        addr += 2
+    prep = dsl.Prepared(d.ws, insts, ctx.rng)
+    ctx.ran()
+    if not prep.verify(d.ws):
+        ctx.inconc("parser disagreement on synthetic listing")
+        return
+    saved, d.flags = d.flags, "none"
+    d.prep, d.style = prep, "any-order-capture-probe"
+    for pat in ([{"$and_any_order": [{"push": ["&r"]}, "pop"]}, {"push": ["&r"]}, "ret"], [{"$and_any_order": ["&i", "pop"]}, "&i", "ret"],
+                [{"$and_any_order": ["pop", {"push": ["&r"]}]}, {"push": ["&r"]}, "ret"], [{"lea": [{"$and_any_order": ["&a", "&b"]}]}, {"add": ["&b", "&a"]}],
+                [{"lea": [{"$and_any_order": ["&a", "&b"]}]}, {"add": ["&a", "&b"]}]):
+        d.run_pattern(pat, "base", True)
+        ctx.event("any_order_capture_probes")
+    d.flags = saved
+
+
 def feat(rng):
     r = rng.random()
     if r < 0.15:   # other constructs (items with and without operands carrying times, groups, $not) between definitions and uses:
@@ -53,6 +77,13 @@ def reuses_capture(pattern) -> bool:
 
 
 def classify(doc, prep, o):
+    try:
+        if M.defs_in_any_order(M.parse_rule(doc)):
+            # open finding F21: every ordering of an any-order group gets its own copy of a capturing group defined inside it, so
+            # later occurrences see only the written order (and the numbers of captures defined afterwards shift)
+            return "capture_defined_inside_any_order"
+    except M.Unsupported:
+        pass
     names = cap_names(doc.get("pattern"), [])
     if any(M.split_reg_name(n) for n in names if isinstance(n, str)):
         return "regfam_capture"
@@ -266,12 +297,15 @@ def case_twin_probes(ctx, d):
 def run_shard(ctx):
     d = drive.Driver(ctx, feat, flags="random", styles=("tiny", "tiny", "dups", "regs"), quirks=QUIRKS, classify=classify,
                      accept=reuses_capture, interesting=reuses_capture, extra=twice)
+    d.allow_any_order_defs = True
     if ctx.shard == 0:
         numbering_probes(ctx, d)
     if ctx.shard in (1, 2, 3):
         regfam_probes(ctx, d)
     if ctx.shard == 4 % ctx.nshards:
         case_twin_probes(ctx, d)
+    if ctx.shard == 5 % ctx.nshards:
+        any_order_capture_probes(ctx, d)
     d.loop(3500, 300000)
 
 
